@@ -81,6 +81,7 @@ CLS_RAISES = 'GaussianMultivariate.sample:raises-on-valid-conditions'
 CLS_STAT = 'GaussianMultivariate.sample:sample-moments-off-conditional-law'
 CLS_HISTORY = 'GaussianMultivariate.sample:conditional-law-depends-on-fit-history'
 CLS_SHARED = 'GaussianMultivariate.sample:conditional-law-depends-on-other-objects'
+CLS_BACK = 'GaussianMultivariate.sample:free-column-not-finite-marginal-quantile-of-its-draw'
 
 STR_POOL = ['b', 'c', 'a', 'B', 'a1', 'Z9', '10', '9', 'x_2', 'd', 'aa', 'C']
 INT_POOL = [3, -1, 10, 2, 7, 0, 25, -8, 100, 4]
@@ -945,6 +946,7 @@ def _oracle_case_impl(ctx, spec, items, container, n, seed, in_order):
                     ctx.fail_input(ep, inp, {'column': str(k), 'values': out[k].to_numpy()[:5].tolist()},
                                    f'conditioned column {k!r} equals the given value {v!r} in every row', CLS_FIXED)
                     break
+            checks += backtransform_check(ctx, ep, inp, model, out, rec, items)
     # the law handed to the sampler (when a draw call was recorded) / returned by
     # _get_conditional_distribution vs the Schur complement from correctly labelled scores
     c1, c2, z, mu, sig, cond22 = schur(model, items)
@@ -982,6 +984,79 @@ def _oracle_case_impl(ctx, spec, items, container, n, seed, in_order):
         if not (ok_mean and ok_cov):
             break
     return checks
+
+
+def backtransform_check(ctx, ep, inp, model, out, rec, items):
+    """every sampled FREE value is finite and equals ppf_col(Phi(z)) of the recorded draw z of its own label,
+    with Phi computed here by scipy (norm.cdf, cross-checked against exp(norm.logcdf)).  Rows where this
+    independent value is itself not finite (Phi(z) rounds to 1.0 in float64 for z > 8.29: the unchanged library
+    cannot represent them either) are counted and skipped."""
+    if len(rec.mvn) != 1 or not rec.gcd:
+        return 0
+    draws, cols1 = rec.mvn[0][3], list(rec.gcd[0][2][2])
+    if draws.ndim != 2 or draws.shape[1] != len(cols1) or len(draws) != len(out):
+        return 0
+    given = {k for k, _ in items}
+    checks = 0
+    for name, uni in zip(model.columns, model.univariates):
+        if name in given or name not in cols1:
+            continue
+        zc = np.asarray(draws[:, cols1.index(name)], dtype=float)
+        with np.errstate(all='ignore'):
+            u = stats.norm.cdf(zc)
+            u2 = np.exp(stats.norm.logcdf(zc))
+            expd = np.asarray(uni.percent_point(u), dtype=float)
+        real = np.asarray(out[name].to_numpy(), dtype=float)
+        agree = np.abs(u - u2) <= 1e-12 * np.abs(u2) + 1e-300
+        can = np.isfinite(expd) & agree & np.isfinite(zc)
+        ctx.count('search:back-transform:rows checked', int(can.sum()))
+        if (~can).any():
+            ctx.count('search:back-transform:rows beyond float64 Phi (unchanged library gives +-inf too)', int((~can).sum()))
+        zmin, zmax = (float(zc[can].min()), float(zc[can].max())) if can.any() else (0.0, 0.0)
+        if zmin < -6:
+            ctx.count('search:back-transform:draws below -6 sd')
+        if zmax > 6:
+            ctx.count('search:back-transform:draws above +6 sd')
+        checks += 1
+        bad = can & ~(np.isfinite(real) & (np.abs(real - expd) <= 1e-12 * np.maximum(1.0, np.abs(expd))))
+        if bad.any():
+            i = int(np.argmax(bad))
+            ctx.fail_input(ep, inp, {'column': str(name), 'row': i, 'recorded draw z (normal score)': float(zc[i]),
+                                     'sampled value': float(real[i]), 'rows failing': int(bad.sum()), 'rows': len(real)},
+                           f'finite and equal to percent_point(Phi(z)) = {float(expd[i])!r} with Phi(z) = {float(u[i])!r} '
+                           f'(scipy norm.cdf, = exp(norm.logcdf))', CLS_BACK)
+    return checks
+
+
+def make_tail_spec(rng, d=None):
+    """two strongly correlated columns (rho 0.85-0.95) + free columns loading on the common component AND on one
+    of the two columns\' own noise: conditioning the pair in opposite directions, 2.5-4.5 sd from their means,
+    puts a free column\'s conditional mean 6-8 sd into a tail."""
+    spec = make_spec(rng, d=d or rng.choice([3, 3, 4]))
+    spec['corr'] = {'kind': 'equi', 'block': 2, 'rho': rng.choice([0.85, 0.9, 0.95])}
+    spec['dists'] = ['gaussian', 'gaussian'] + [rng.choice(['gaussian', 'gaussian', 'gaussian', 'gamma', 'uniform'])
+                                                for _ in range(spec['d'] - 2)]
+    spec['nrows'] = 400
+    return spec
+
+
+def tail_items(model, spec, target, free):
+    """legal values for the correlated pair whose Schur mean for `free` is `target` (minimum-norm scores)."""
+    c2 = spec['labels'][:2]
+    S = model.correlation
+    g = np.linalg.solve(S.loc[c2, c2].to_numpy(), S.loc[c2, [free]].to_numpy())[:, 0]
+    z = target * g / float(g @ g)
+    if np.max(np.abs(z)) > 4.6:
+        return None
+    cols = list(model.columns)
+    items = []
+    for k, zi in zip(c2, z):
+        with np.errstate(all='ignore'):
+            x = float(np.asarray(model.univariates[cols.index(k)].percent_point(stats.norm.cdf(np.array([zi]))))[0])
+        if not np.isfinite(x):
+            return None
+        items.append((k, x))
+    return items
 
 
 def output_scores(model, out, c1):
@@ -1387,6 +1462,34 @@ def search(ctx, deep):
                 ctx.count('search:constant-column:' + ('default-wrapper' if 'default' in spec['dists'] else 'explicit-class')
                           + (':restored' if 'route' in spec else ''))
                 checks += oracle_case(ctx, spec, it, container, rng.choice([1, 4]), rng.randrange(2 ** 32), True)
+    # extreme but legal conditioning values: a strongly correlated pair conditioned in opposite directions
+    # (each 2.5-4.6 sd from its mean) puts the conditional mean of a free column 6..8.2 sd into the LOWER or
+    # UPPER tail; `backtransform_check` (inside oracle_case) requires every free value to be finite and equal to
+    # ppf(Phi(z)) of its recorded draw.  Beyond z = 8.29 Phi(z) is 1.0 in float64 and the unchanged library
+    # returns +inf for unbounded marginals too: those rows are counted and skipped, targets are capped at 8.2.
+    ntail = 0
+    tspecs = []
+    for _ in range(40):
+        if len(tspecs) >= (8 if deep else 3):
+            break
+        tspec = make_tail_spec(rng)
+        tmodel, _ = build(tspec)
+        frees = [f for f in tspec['labels'][2:] if tail_items(tmodel, tspec, -7.5, f) is not None]
+        if frees:
+            tspecs.append((tspec, frees))
+    for tspec, frees in tspecs:
+        tmodel, _ = build(tspec)
+        for free in frees[:2]:
+            targets = [-8.2, -7.8, -7.0, -6.0, 6.0, 7.0, 7.8, 8.2] + [rng.choice([-1, 1]) * rng.uniform(6.0, 8.2) for _ in range(4 if deep else 1)]
+            for t in targets:
+                it = tail_items(tmodel, tspec, t, free)
+                if it is None:
+                    ctx.count('search:tail:target not reachable with scores within +-4.6')
+                    continue
+                for items_, container, in_order in [(it, 'dict', True), (it[::-1], 'series', False)]:
+                    ntail += 1
+                    ctx.count('search:tail:conditional mean %+d sd' % int(t))
+                    checks += oracle_case(ctx, tspec, items_, container, 5, rng.randrange(2 ** 32), in_order)
     # fit histories: the conditional law must be that of the CURRENT fit
     nhist = 0
     for what, hspec in history_specs(rng, deep):
@@ -1421,7 +1524,7 @@ def search(ctx, deep):
             if c:
                 ctx.count('search:stat' + (':one-free-column' if len(items) == spec['d'] - 1 else ''))
     ctx.support = {'oracle_checks': checks, 'cases': ncases, 'law_cases': nlaw, 'history_cases': nhist, 'ill_conditioned_cases': nill,
-                   'constant_column_cases': nconst, 'multi_object_calls': nshared,
+                   'constant_column_cases': nconst, 'multi_object_calls': nshared, 'tail_cases': ntail,
                    'statistical_cases': nstat,
                    'deep': deep, 'failures': len(ctx.failing)}
 
